@@ -1232,7 +1232,10 @@ class Pool:
                 # already accepted by process
                 if acked_by_gone:
                     self.on_job_process_down(job, acked_by_gone)
-                    if not job.ready():
+                    # a job already marked keeps the time and status of
+                    # its detection: reaping another worker must not
+                    # restart its lost-worker timeout.
+                    if not job.ready() and not job._worker_lost:
                         exitcode = exitcodes.get(acked_by_gone) or 0
                         proc = cleaned.get(acked_by_gone)
                         if proc and getattr(proc, '_job_terminated', False):
